@@ -574,6 +574,11 @@ class Point:
 
     def ev_fn(self, x):
         name = x.val; memo = self.memo
+        if name in ('max', 'min') and len(x.args) == 2:
+            # the larger / smaller operand, chosen by the same decision an `if a >= b` on these operands gets at this point (so that max(a, b) and a branch on a < b agree)
+            ge = self.ev(cmp('>=', x.args[0], x.args[1]))
+            first = (ge == (1, 0)) == (name == 'max')
+            return memo[x.args[0].uid] if first else memo[x.args[1].uid]
         if name == 'exp':
             return self.ev_exp(x.args[0])
         if name == 'cexp':      # exp(I*arg)
@@ -912,6 +917,23 @@ class Decider:
         pt = self.points[0]
         fa = pt.fev(lift(a)); fb = pt.fev(lift(b)) if b is not None else 0j
         return abs(fa - fb), max(abs(fa), abs(fb))
+
+    def close(self, a, b, rtol=1e-10):
+        """both expressions evaluate, at every sample point, to floating-point values that agree to rtol of their scale: for comparisons that must tolerate constants typed
+        as rounded decimals (a value tabulated twice to 16-25 digits); never a substitute for `equal` where an identity is claimed."""
+        a = lift(a); b = lift(b)
+        n_ok = 0
+        for pt in self.points:
+            try:
+                fa = pt.fev(a); fb = pt.fev(b)
+            except (AnalysisError, OverflowError, ZeroDivisionError, ValueError):
+                continue
+            if fa != fa or fb != fb:
+                continue
+            if abs(fa - fb) > rtol * max(abs(fa), abs(fb), 1e-300):
+                return False
+            n_ok += 1
+        return n_ok > 0
 
     def describe(self, a, b):
         r, s = self.residual(a, b)
